@@ -99,6 +99,7 @@ public:
     std::chrono::seconds pingInterval;
     std::unordered_map<std::string, std::string> headers; // custom upgrade headers
     TlsMode tlsMode;
+    std::size_t maxFrameSize; // largest inbound frame buffered before closing (1009)
 
     Options()
       : autoReconnect(false)
@@ -106,6 +107,7 @@ public:
       , maxReconnectDelay(30000)
       , pingInterval(30)
       , tlsMode(TlsMode::None)
+      , maxFrameSize(16 * 1024 * 1024) // 16MB, same default as WebSocketServer
     {
     }
   };
@@ -801,6 +803,18 @@ private:
 
       // handleFrame fires callbacks — must be outside lock
       handleFrame(*frame);
+    }
+
+    // The remainder is one incomplete frame. A frame within maxFrameSize has at
+    // most 14 header bytes (2 + 8-byte length + 4-byte mask) + maxFrameSize, so a
+    // larger remainder can never complete into an acceptable frame — close
+    // instead of buffering it.
+    const std::size_t pending = localBuffer.size() - offset;
+    if (pending > 14 && pending - 14 > _options.maxFrameSize)
+    {
+      if (_onError) _onError("Frame exceeded maxFrameSize");
+      disconnect(1009, "Message Too Big");
+      return;
     }
 
     // Step 4: Put unconsumed remainder back under lock
